@@ -115,6 +115,9 @@ _sha1_ctx_mgr_submit_base(ISAL_SHA1_HASH_CTX_MGR *mgr, ISAL_SHA1_HASH_CTX *ctx, 
                 return ctx;
         }
 
+        // A valid call: do not report the error of an earlier, rejected one
+        ctx->error = ISAL_HASH_CTX_ERROR_NONE;
+
         if (flags == ISAL_HASH_FIRST) {
 
                 sha1_init(ctx, buffer, len);
